@@ -1637,6 +1637,14 @@ fn forward_device_data(
         len
     );
 
+    // update the state of shared subscription: the publishes are in the link's buffer now,
+    // whether or not that filled it
+    if let Some(share) = shared_group {
+        share.update_next_client();
+        // update the shared cursor
+        share.cursor = request.cursor;
+    }
+
     if len >= MAX_CHANNEL_CAPACITY - 1 {
         debug!("Outgoing channel reached its capacity");
         outgoing.push_notification(Notification::Unschedule);
@@ -1645,13 +1653,6 @@ fn forward_device_data(
     }
 
     outgoing.handle.try_send(()).ok();
-
-    // update the state of shared subscription
-    if let Some(share) = shared_group {
-        share.update_next_client();
-        // update the shared cursor
-        share.cursor = request.cursor;
-    }
 
     if caughtup {
         ConsumeStatus::FilterCaughtup
